@@ -1,7 +1,8 @@
 SPECIFICATION Spec
 CONSTANTS
   Nodes = {"n1", "n2"}
-  Focus = FALSE
+  ScanFirst = "n1"
+  Focus = "no"
   MaxOps = 9
 INVARIANT DownWhenSettled
 CONSTRAINT Emit
